@@ -14,7 +14,13 @@ interpreters under several PYTHONHASHSEED values):
             round trips after every application; the model is fed the tree as it is at application time and, for a
             repeated application, the trees the earlier applications saw - op `SUBCLSN`), and trees with CLASS-TYPED
             fields (a field of a tree class typed as another class of the tree, holding instances of its descendants;
-            implementation-side oracle only: the per-class hooks are abstract in the model);
+            implementation-side oracle only: the per-class hooks are abstract in the model), and LISTED trees: the classes
+            are given explicitly with `subclasses=` - depth-first, level by level, leaves first, random permutations; with
+            omitted intermediate classes and omitted leaves; with a class listed twice.  Oracle there: every listed
+            descendant through every listed ancestor comes back as exactly itself; a K that is not listed behaves exactly
+            like a converter without the strategy; an omitted class never comes back as itself through a listed K.  The
+            model is fed the tree RESTRICTED to the listed classes (`restrict`: re-parented to the nearest listed
+            ancestor, plus which classes lost their direct base and the class tuple as given);
   workers : one subprocess per PYTHONHASHSEED; each realises the trees as REAL subclasses, and per configuration — on a
             fresh Converter — applies `include_subclasses(root, conv, union_strategy=…, overrides=…)` and evaluates
             `conv.structure(conv.unstructure(x, unstructure_as=K), K)` for every class K and every instance x of K or of
@@ -171,7 +177,7 @@ def _worker_converter(cfg):
     return Converter(forbid_extra_keys=cfg["forbid"], detailed_validation=cfg["detailed"], omit_if_default=cfg["omit"])
 
 
-def _worker_apply(cfg, classes, conv):
+def _worker_apply(cfg, classes, conv, listing=None):
     """include_subclasses(root, conv, ...) for the classes that exist NOW; returns the step record (no pairs yet)"""
     import functools
 
@@ -192,7 +198,11 @@ def _worker_apply(cfg, classes, conv):
         us = functools.partial(configure_tagged_union, **kw) if kw else configure_tagged_union
     res = {"apply": "ok", "pairs": []}
     try:
-        include_subclasses(classes[0], conv, union_strategy=us, overrides=ov)
+        if listing is None:
+            include_subclasses(classes[0], conv, union_strategy=us, overrides=ov)
+        else:       # explicit `subclasses=`: any order, possibly with omitted classes and duplicates
+            include_subclasses(classes[0], conv, subclasses=tuple(classes[i] for i in listing), union_strategy=us,
+                               overrides=ov)
     except Exception as e:  # noqa: BLE001 - refusal (or crash) at application
         res["apply"] = "raise"
         res["detail"] = _exc_detail(e)
@@ -272,7 +282,11 @@ def _worker_tree(T, tag):
     for ci, cfg in enumerate(T["configs"]):
         steps = out["configs"][ci]["steps"]
         c2 = _worker_converter(cfg)
-        steps["b"] = _worker_pairs(_worker_apply(cfg, classes, c2), T["pairs"], classes, insts, c2)
+        steps["b"] = _worker_pairs(_worker_apply(cfg, classes, c2, T.get("listing")), T["pairs"], classes, insts, c2)
+        if T.get("listing") is not None:
+            # "p": the same converter options WITHOUT the strategy (what an unlisted class has to behave like)
+            c0 = _worker_converter(cfg)
+            steps["p"] = _worker_pairs({"apply": "ok", "pairs": []}, T["pairs"], classes, insts, c0)
         if n0:
             if steps["a"]["apply"] == "ok":
                 c3 = c1s[ci].copy()
@@ -336,8 +350,11 @@ def gen_tree(rng, tid, tier, flavour="plain"):
     """flavour: "plain" (one application on the finished tree), "staged" (the strategy is applied, the hierarchy grows,
     the strategy is applied again - see `_worker_tree`), "ref" (some class has a field typed as another class of the
     tree; implementation-side oracle only)"""
-    n = rng.choice([1, 2, 2, 3, 3, 3, 4, 4, 5, 5, 6, 7, 8] if flavour == "plain" else [3, 3, 4, 4, 5, 5, 6, 7, 8])
+    n = rng.choice([1, 2, 2, 3, 3, 3, 4, 4, 5, 5, 6, 7, 8] if flavour == "plain" else
+                   [3, 4, 4, 5, 5, 6, 6, 7, 8] if flavour == "listed" else [3, 3, 4, 4, 5, 5, 6, 7, 8])
     shape = rng.choice(["random", "random", "chain", "star", "bushy"])
+    if flavour == "listed" and shape in ("star", "bushy") and rng.random() < 0.7:
+        shape = rng.choice(["chain", "random"])        # depth >= 3 matters here
     parents, depth, nch = [-1], [1], [0]
     for ci in range(1, n):
         cand = [p for p in range(ci) if depth[p] < 4 and nch[p] < 3]
@@ -355,7 +372,7 @@ def gen_tree(rng, tid, tier, flavour="plain"):
         nch[p] += 1
     literal = n >= 2 and rng.random() < 0.22 and flavour != "ref"
     mode = rng.choice(["distinct", "distinct", "distinct", "random", "random"])
-    if flavour == "ref" or (flavour == "staged" and rng.random() < 0.5):
+    if flavour == "ref" or (flavour in ("staged", "listed") and rng.random() < 0.6):
         mode = "distinct"
     p_default = rng.choice([0.0, 0.0, 0.25, 0.5])
     classes = []
@@ -405,6 +422,24 @@ def gen_tree(rng, tid, tier, flavour="plain"):
     if flavour == "staged":
         T["stage0"] = rng.choice([1, 2, 2, 3, 3, 4][:max(1, n - 1)] if n > 2 else [1])
         T["stage0"] = min(T["stage0"], n - 1)
+    if flavour == "listed":
+        # explicit `subclasses=`: most classes listed (omitted intermediates = gaps, omitted leaves), in some order,
+        # sometimes with a class listed twice
+        listed = [c for c in range(1, n) if rng.random() < 0.8] or [rng.choice(range(1, n))]
+        dep = {c: len([k for k in range(n) if is_sub(T, c, k)]) for c in range(n)}
+        order = rng.choice(["dfs", "bfs", "bfs", "random", "random", "index", "leaves-first"])
+        if order == "dfs":
+            listed = [c for c in preorder(T) if c in listed]
+        elif order == "bfs":
+            listed.sort(key=lambda c: (dep[c], c))
+        elif order == "leaves-first":
+            listed.sort(key=lambda c: (-dep[c], c))
+        elif order == "random":
+            rng.shuffle(listed)
+        if rng.random() < 0.2:
+            listed.insert(rng.randint(0, len(listed)), rng.choice(listed))
+        T["listing"] = listed
+        T["listing_order"] = order
     if flavour == "ref":
         inner = [c for c in range(n) if children(T, c)]
         pos = {c: i for i, c in enumerate(preorder(T))}
@@ -454,7 +489,7 @@ def gen_tree(rng, tid, tier, flavour="plain"):
                     cfg["tags"] = [f"tag{ci}" for ci in range(n)]
                 elif r < 0.25:
                     cfg["tags"] = [10 + ci for ci in range(n)]
-                elif r < 0.31 and n >= 2:
+                elif r < 0.31 and n >= 2 and flavour != "listed":
                     tags = [f"tag{ci}" for ci in range(n)]
                     a, b = rng.sample(range(n), 2)
                     tags[a] = tags[b]        # NOT injective: outside the property, correspondence only
@@ -555,6 +590,34 @@ def fixed_trees():
                   [node(-1, _fld("a")), node(0, _fld("b")), node(0, _fld("c"), _fld("r2", ref=0))],
                   [{"cls": 2, "args": {"a": 1, "c": 4, "r2": {"inst": {"cls": 1, "args": {"a": 2, "b": 3}}}}}],
                   [cfg("auto", False), cfg("auto", True), cfg("union", False)], refs=True))
+    # explicit `subclasses=`: Event > UserEvent > _Audited > {Login, Logout}; Event > SystemEvent > Reboot, the helper
+    # _Audited left out, listed level by level (seeded changes "contiguous run" / "parent_classes gate")
+    evt = [node(-1, _fld("a")), node(0, _fld("b")), node(1, _fld("c")), node(2, _fld("d")), node(2, _fld("e")),
+           node(0, _fld("f")), node(5, _fld("g"))]
+    evi = [{"cls": 0, "args": {"a": 1}}, {"cls": 1, "args": {"a": 1, "b": 2}},
+           {"cls": 3, "args": {"a": 1, "b": 2, "c": 3, "d": 4}}, {"cls": 4, "args": {"a": 1, "b": 2, "c": 3, "e": 5}},
+           {"cls": 5, "args": {"a": 1, "f": 6}}, {"cls": 6, "args": {"a": 1, "f": 6, "g": 7}},
+           {"cls": 2, "args": {"a": 1, "b": 2, "c": 3}}]
+    T = mk(-12, "attrs", evt, evi, [cfg("auto", False), cfg("auto", True), cfg("union", False), cfg("union", True),
+                                    cfg("union", False, tag_name="kind_")])
+    T["listing"] = [1, 5, 3, 4, 6]
+    out.append(T)
+    # ... everything listed, breadth-first (depth 4)
+    T = mk(-13, "dc", json.loads(json.dumps(evt)), evi, [cfg("auto", False), cfg("union", False), cfg("union", True)])
+    T["listing"] = [1, 5, 2, 6, 3, 4]
+    out.append(T)
+    # F65: K > _Helper > Leaf listed as (Leaf,): nothing is configured by the union strategy
+    T = mk(-14, "attrs", [node(-1, _fld("a")), node(0, _fld("b")), node(1, _fld("c"))],
+           [{"cls": 0, "args": {"a": 1}}, {"cls": 2, "args": {"a": 1, "b": 2, "c": 3}}, {"cls": 1, "args": {"a": 1, "b": 2}}],
+           [cfg("union", False), cfg("union", True), cfg("auto", False)])
+    T["listing"] = [2]
+    out.append(T)
+    # F64: a leaf listed twice makes the union strategy raise at application (the diamond crash)
+    T = mk(-15, "attrs", [node(-1, _fld("a")), node(0, _fld("b")), node(0, _fld("c")), node(2, _fld("d"))],
+           [{"cls": 0, "args": {"a": 1}}, {"cls": 1, "args": {"a": 1, "b": 2}}, {"cls": 3, "args": {"a": 1, "c": 2, "d": 3}}],
+           [cfg("union", False), cfg("auto", False), cfg("auto", True)])
+    T["listing"] = [1, 2, 3, 1]
+    out.append(T)
     # (was F49, repaired by 63cd579) a dataclass field with only a default_factory is not a key to recognise a class by:
     # P{a} / C(P){e = field(default_factory=...)} cannot be told apart, the automatic strategy refuses
     out.append(mk(-7, "dc",
@@ -599,7 +662,10 @@ def tree_sx(T, cfg, upto=None):
                       f"{1 if omit_in_effect(cfg, f) else 0})")
         p = "-" if node["parent"] < 0 else str(node["parent"])
         out.append(f"({p} ({' '.join(fs)}))")
-    return "(" + " ".join(out) + ")"
+    nodes = "(" + " ".join(out) + ")"
+    if T.get("labels"):      # explicit listing: which classes hang below an omitted base; the class tuple as given
+        return f"(listed {nodes} ({' '.join(map(str, T['indirect']))}) ({' '.join(map(str, T['order']))}))"
+    return nodes
 
 
 def tag_sx(t):
@@ -920,6 +986,54 @@ def _install_findings():
             return False
 
 
+    @framework.finding("subclasses-union-duplicate-leaf")
+    def f64(case):
+        """F64: union strategy, applying it raises AttributeError: a class without (listed) subclasses occurs twice in the
+        class tuple (listed twice in `subclasses=`; a diamond found twice by `_make_subclasses_tree`)"""
+        try:
+            T, cfg = case["tree"], case["config"]
+            return (case.get("kind") == "apply" and cfg["strategy"] == "union" and case.get("impl") == "raise"
+                    and (case.get("detail") or {}).get("exc") == "AttributeError"
+                    and any(not children(T, c) for c in T.get("dups") or []))
+        except Exception:  # noqa: BLE001
+            return False
+
+    @framework.finding("subclasses-union-gaps-no-parent")
+    def f65(case):
+        """F65: union strategy, explicit `subclasses=` in which NO listed class is the direct base of a listed class
+        (`parent_classes` empty: nothing is configured): a listed descendant structured through a listed ancestor comes
+        back as the ancestor (or is rejected by forbid_extra_keys), and its unstructured form carries no tag"""
+        try:
+            T, cfg = case["tree"], case["config"]
+            n = len(T["classes"])
+            if not (case.get("kind") == "pair" and cfg["strategy"] == "union" and T.get("labels") and n >= 2
+                    and sorted(T["indirect"]) == list(range(1, n))):
+                return False
+            K, D = case["K"], T["instances"][case["inst"]]["cls"]
+            return (K != D and case["impl"] in (f"ok:{K}:0", "err-st") and isinstance(case.get("un"), dict)
+                    and cfg["tag_name"] not in case["un"])
+        except Exception:  # noqa: BLE001
+            return False
+
+
+    @framework.finding("subclasses-union-inner-before-ancestor")
+    def f66(case):
+        """F66: union strategy + forbid_extra_keys + explicit `subclasses=` in which x's class D (which has listed
+        subclasses) stands before the (last) place of K in the class tuple - K an ancestor of D, or D itself listed twice:
+        K's union hook has captured D's union hook as D's own, pops the tag, and the captured hook raises KeyError"""
+        try:
+            T, cfg = case["tree"], case["config"]
+            if not (case.get("kind") == "pair" and cfg["strategy"] == "union" and cfg["forbid"] is True and T.get("labels")
+                    and case["impl"] == "err-st" and (case.get("detail") or {}).get("exc") == "KeyError"):
+                return False
+            K, D = case["K"], T["instances"][case["inst"]]["cls"]
+            order = T["order"]
+            last_k = max(i for i, c in enumerate(order) if c == K)
+            return bool(children(T, D)) and any(c == D and i < last_k for i, c in enumerate(order))
+        except Exception:  # noqa: BLE001
+            return False
+
+
 PENDING_FINDINGS = [
     {"id": "F15", "property": "C14", "kind": "finding", "signature": "subclasses-leaf-tag-forbidden",
      "what": "include_subclasses with a union strategy on a converter with forbid_extra_keys=True: a class without "
@@ -940,6 +1054,21 @@ PENDING_FINDINGS = [
              "captures the FIRST application's union structure hook as the class's own hook; the new union hook pops the tag "
              "and the old one then fails to find it: KeyError('_type') for every instance of a class that already had "
              "subclasses at the first application"},
+    {"id": "F64", "property": "C14", "kind": "finding", "signature": "subclasses-union-duplicate-leaf",
+     "what": "include_subclasses with a union strategy raises AttributeError (type object 'E' has no attribute '__args__') "
+             "while it is applied when a class without subclasses occurs twice in the class tuple - a diamond "
+             "(B > C, D > E(C, D): _make_subclasses_tree yields B, C, E, D, E) or subclasses=(M, Leaf, M): the second pass "
+             "builds Union[(E, E)], which is E itself, and hands it to the union strategy"},
+    {"id": "F65", "property": "C14", "kind": "finding", "signature": "subclasses-union-gaps-no-parent",
+     "what": "include_subclasses(K, conv, subclasses=(Leaf,), union_strategy=...) with K > _Helper > Leaf: _has_subclasses "
+             "only looks at DIRECT subclasses, parent_classes is empty and the strategy returns without configuring "
+             "anything: structure(unstructure(Leaf(...), unstructure_as=K), K) returns a bare K, the subclass is silently "
+             "lost (the automatic strategy handles the same listing)"},
+    {"id": "F66", "property": "C14", "kind": "finding", "signature": "subclasses-union-inner-before-ancestor",
+     "what": "include_subclasses with a union strategy, forbid_extra_keys=True and an explicit subclasses= tuple in which a "
+             "class that has subclasses itself is listed before one of its ancestors (A > B > C > D, subclasses=(C, D, B)) or "
+             "twice: the second pass assumes descendants come later; B's union hook captures C's union hook as C's own "
+             "hook, pops the tag, and the captured hook raises KeyError('_type') for every C structured through B"},
 ]
 
 
@@ -958,6 +1087,13 @@ def tree_source(T, cfg=None):
              "from cattrs import Converter", "from cattrs.gen import override",
              "from cattrs.strategies import include_subclasses, configure_tagged_union", ""]
     kw = "kw_only=True" if T["kw_only"] else ""
+    listing = None
+    if T.get("full"):
+        if cfg is not None:
+            cfg = T["full"]["configs"][T["configs"].index(cfg)] if cfg in T["configs"] else cfg
+        T = T["full"]
+    if T.get("listing") is not None:
+        listing = "(" + ", ".join(f"K{c}" for c in T["listing"]) + ",)"
     for ci, node in enumerate(T["classes"]):
         deco = f"@attrs.define({kw})" if T["kind"] == "attrs" else f"@dataclasses.dataclass({kw})"
         base = f"(K{node['parent']})" if node["parent"] >= 0 else ""
@@ -993,18 +1129,20 @@ def tree_source(T, cfg=None):
                 table = "{" + ", ".join(f"K{i}: {t!r}" for i, t in enumerate(cfg["tags"])) + "}"
                 kws.append(f"tag_generator={table}.__getitem__")
             us = f"partial(configure_tagged_union, {', '.join(kws)})" if kws else "configure_tagged_union"
-        lines.append(f"include_subclasses(K0, conv, union_strategy={us}, overrides={ov})")
+        sub = f"subclasses={listing}, " if listing else ""
+        lines.append(f"include_subclasses(K0, conv, {sub}union_strategy={us}, overrides={ov})")
     return "\n".join(lines)
 
 
-def inst_source(spec):
-    args = ", ".join(f"{n}={(inst_source(v['inst']) if isinstance(v, dict) else repr(v))}" for n, v in spec["args"].items())
-    return f"K{spec['cls']}({args})"
+def inst_source(spec, T=None):
+    args = ", ".join(f"{n}={(inst_source(v['inst'], T) if isinstance(v, dict) else repr(v))}" for n, v in spec["args"].items())
+    return f"{kn(T or {}, spec['cls'])}({args})"
 
 
 def call_source(T, K, ii, step="b"):
     pre = "" if not T.get("stage0") else f"# step {step}: {STEP_DOC[step]}\n"
-    return pre + f"x = {inst_source(T['instances'][ii])}; conv.structure(conv.unstructure(x, unstructure_as=K{K}), K{K})"
+    return pre + (f"x = {inst_source(T['instances'][ii], T)}; "
+                  f"conv.structure(conv.unstructure(x, unstructure_as={kn(T, K)}), {kn(T, K)})")
 
 
 # =====================================================================================================
@@ -1024,6 +1162,105 @@ def in_property(T, cfg):
     if cfg["strategy"] == "union" and cfg["tags"] is not None and len(set(cfg["tags"])) < len(cfg["tags"]):
         return False
     return True
+
+
+def restrict(T):
+    """The tree the strategy works on when the classes are given explicitly (`subclasses=T["listing"]`): the root and the
+    listed classes, each below its nearest listed ancestor and carrying the fields of the omitted classes in between;
+    `indirect`: listed classes whose direct base is not listed; `dups`: listed more than once.  Returns the restricted
+    tree (an ordinary tree, class/instance indices renumbered; `labels` / `full` point back) and the index maps."""
+    keep = sorted({0} | set(T["listing"]))
+    new = {c: i for i, c in enumerate(keep)}
+
+    def up(c):
+        p = T["classes"][c]["parent"]
+        while p >= 0 and p not in new:
+            p = T["classes"][p]["parent"]
+        return p
+
+    classes = [{"parent": (new[up(c)] if c != 0 else -1), "own": json.loads(json.dumps(eff_fields(T, c)))} for c in keep]
+    imap, insts = {}, []
+    for ii, inst in enumerate(T["instances"]):
+        if inst["cls"] in new:
+            imap[ii] = len(insts)
+            insts.append({"cls": new[inst["cls"]], "args": inst["args"]})
+    Tr = {"id": T["id"], "kind": T["kind"], "kw_only": T["kw_only"], "literal": T["literal"], "stage0": None,
+          "classes": classes, "instances": insts,
+          "indirect": [new[c] for c in keep if c != 0 and T["classes"][c]["parent"] not in new],
+          "dups": [new[c] for c in keep if T["listing"].count(c) > 1],
+          "order": [0] + [new[c] for c in T["listing"]],
+          "labels": keep, "full": T}
+    Tr["pairs"] = [[new[K], imap[ii]] for K, ii in T["pairs"] if K in new and ii in imap]
+    Tr["configs"] = []
+    for cfg in T["configs"]:
+        c2 = dict(cfg)
+        if cfg["tags"] is not None:
+            c2["tags"] = [cfg["tags"][c] for c in keep]
+        Tr["configs"].append(c2)
+    return Tr, new, imap
+
+
+def prepare(trees, wres, seeds):
+    """Trees with an explicit listing are evaluated as their restriction (`restrict`): the workers' results for the pairs
+    of listed classes are re-indexed accordingly.  What the strategy must NOT do is judged here:
+      * a pair whose K is not listed gives exactly what a converter without the strategy gives;
+      * an instance of an unlisted class never comes back as that class through a listed K.
+    Returns (trees to evaluate, results, oracle failures)."""
+    out_trees, fails = [], []
+    res = {s: {"results": dict(wres[s]["results"]), "cattrs": wres[s]["cattrs"]} for s in seeds}
+    for T in trees:
+        if T.get("listing") is None:
+            out_trees.append(T)
+            continue
+        tid = str(T["id"])
+        if any("error" in wres[s]["results"][tid] for s in seeds):
+            out_trees.append(T)
+            continue
+        Tr, new, imap = restrict(T)
+        out_trees.append(Tr)
+        for s in seeds:
+            R = wres[s]["results"][tid]
+            Rr = {"names": [R["names"][c] for c in Tr["labels"]], "configs": []}
+            for ci, cfg in enumerate(T["configs"]):
+                B, P0 = R["configs"][ci]["steps"]["b"], R["configs"][ci]["steps"]["p"]
+                Br = {k: v for k, v in B.items() if k != "pairs"}
+                Br["pairs"] = []
+                for pi, (K, ii) in enumerate(T["pairs"]):
+                    if B["apply"] != "ok":
+                        break
+                    P, D = B["pairs"][pi], T["instances"][ii]["cls"]
+                    if K in new and D in new:
+                        P = dict(P)
+                        if P["out"].startswith("ok:"):      # class numbers of the restricted tree
+                            _, j, eq = P["out"].split(":")
+                            P["out"] = f"ok:{new[int(j)]}:{eq}" if int(j) in new else f"other:unlisted-K{j}"
+                        Br["pairs"].append(P)
+                        continue
+
+                    def case(**kw):
+                        d = {"kind": "unlisted", "tree": Tr, "config_index": ci, "config": Tr["configs"][ci], "step": "b",
+                             "hashseed": s, "seeds": seeds, "source": tree_source(Tr, Tr["configs"][ci]), "K_full": K,
+                             "inst_full": ii, "impl": P["out"], "un": P["un"], "call": call_source(T, K, ii)}
+                        d.update(kw)
+                        return d
+
+                    if K not in new:
+                        Q = P0["pairs"][pi]
+                        if (canon(P["out"]), P["un"]) != (canon(Q["out"]), Q["un"]):
+                            fails.append((f"K{K} is not among the listed classes, yet structure(unstructure(x, unstructure_as=K{K}), "
+                                          f"K{K}) differs from a converter without the strategy: {P['out']} / {P['un']} vs "
+                                          f"{Q['out']} / {Q['un']} [{cfg['strategy']}, PYTHONHASHSEED={s}]", case(plain=Q["out"])))
+                    elif P["out"].startswith(f"ok:{D}:"):
+                        fails.append((f"K{D} was left out of `subclasses=`, yet its instance comes back as K{D} through K{K} "
+                                      f"[{cfg['strategy']}, PYTHONHASHSEED={s}]", case()))
+                Rr["configs"].append({"steps": {"b": Br}})
+            res[s]["results"][tid] = Rr
+    return out_trees, res, fails
+
+
+def kn(T, c):
+    """name of class c in messages / sources (a restricted tree keeps the numbering of the full hierarchy)"""
+    return f"K{T['labels'][c]}" if T.get("labels") else f"K{c}"
 
 
 def step_tree(T, step):
@@ -1120,7 +1357,8 @@ def evaluate(chk, drv, trees, wres, seeds, count=True):
                                 legit = ref_refusal_permitted(Ts, cfg, K, D, P["un"])
                             if not legit:
                                 oracle_fail.append((
-                                    f"[step {step}] structure(unstructure(x, unstructure_as=K{K}), K{K}) for an instance of K{D}: "
+                                    f"[step {step}] structure(unstructure(x, unstructure_as={kn(T, K)}), {kn(T, K)}) for an instance "
+                                    f"of {kn(T, D)}: "
                                     f"{out} {(P.get('detail') or {}).get('exc', '')} [{cfg['strategy']}, "
                                     f"forbid_extra_keys={cfg['forbid']}, PYTHONHASHSEED={s}]",
                                     case_of("pair", s, K=K, inst=ii, impl=out, detail=P.get("detail"), un=P["un"],
@@ -1142,7 +1380,7 @@ def evaluate(chk, drv, trees, wres, seeds, count=True):
                                 chk.unmodelled += 1
                             continue
                         if canon(out) != M["out"][pi]:
-                            corr_fail.append((f"[step {step}] K{K} <- instance #{ii} of K{D}: impl={canon(out)} "
+                            corr_fail.append((f"[step {step}] {kn(T, K)} <- instance #{ii} of {kn(T, D)}: impl={canon(out)} "
                                               f"model={M['out'][pi]} (config #{ci} {cfg['strategy']}, PYTHONHASHSEED={s})",
                                               case_of("pair", s, K=K, inst=ii, impl=out, model=M["out"][pi], un=P["un"],
                                                       call=call_source(T, K, ii, step))))
@@ -1165,8 +1403,16 @@ def evaluate(chk, drv, trees, wres, seeds, count=True):
                          "in-property" if prop else "non-injective-tags")
         if count:
             chk.note("classes:%d" % n, "kind:" + T["kind"], "literal" if T["literal"] else "no-literal",
-                     "flavour:" + ("ref" if T.get("refs") else "staged" if T.get("stage0") else "plain"),
+                     "flavour:" + ("ref" if T.get("refs") else "staged" if T.get("stage0") else
+                                   "listed" if T.get("labels") else "plain"),
                      "depth:%d" % max(len([1 for k in range(n) if is_sub(T, c, k)]) for c in range(n)))
+            if T.get("labels"):
+                F = T["full"]
+                chk.note("listing-order:" + F.get("listing_order", "fixed"),
+                         "listing:" + ("gaps" if T["indirect"] else "no-gaps"),
+                         "listing:" + ("omitted-leaf" if any(c not in T["labels"] and not children(F, c)
+                                                             for c in range(len(F["classes"]))) else "all-leaves"),
+                         "listing:" + ("duplicates" if T["dups"] else "no-duplicates"))
             if T.get("stage0"):
                 grown = set(range(T["stage0"], n))
                 chk.note("growth:new-leaf-under-old-inner" if any(
@@ -1240,24 +1486,29 @@ def run(chk):
     n_trees = 260 if quick else 1800
     n_staged = 80 if quick else 500
     n_ref = 60 if quick else 300
+    n_listed = 100 if quick else 600
     seeds = [0] if quick else [0, 1, 2]
     seeds = seeds + [100 + (chk.seed * 7919 + 13) % 4000]
     drv = lean.Driver()
     trees = (fixed_trees() + [gen_tree(rng, i, chk.tier) for i in range(n_trees)]
              + [gen_tree(rng, 10000 + i, chk.tier, "staged") for i in range(n_staged)]
-             + [gen_tree(rng, 20000 + i, chk.tier, "ref") for i in range(n_ref)])
+             + [gen_tree(rng, 20000 + i, chk.tier, "ref") for i in range(n_ref)]
+             + [gen_tree(rng, 30000 + i, chk.tier, "listed") for i in range(n_listed)])
     t0 = time.time()
     wres = run_workers(trees, seeds, "M")
     chk.extra["worker_wall_s"] = round(time.time() - t0, 1)
     chk.extra["cattrs_under_test"] = sorted({wres[s]["cattrs"] for s in seeds})
     chk.extra["hash_seeds"] = seeds
-    oracle_fail, corr_fail = evaluate(chk, drv, trees, wres, seeds)
+    etrees, eres, extra_fail = prepare(trees, wres, seeds)
+    oracle_fail, corr_fail = evaluate(chk, drv, etrees, eres, seeds)
+    oracle_fail = extra_fail + oracle_fail
 
     reported = 0
     seen = set()
     real = 0
     for what, case in oracle_fail:
-        key = (case["tree"]["id"], case["config_index"], case.get("step"), case.get("K"), case.get("inst"), case["kind"])
+        key = (case["tree"]["id"], case["config_index"], case.get("step"), case.get("K", case.get("K_full")),
+               case.get("inst", case.get("inst_full")), case["kind"])
         if key in seen:
             continue
         seen.add(key)
@@ -1284,8 +1535,11 @@ def run(chk):
             extra += variants(T, rng, 100000 + 1000 * len(done))
         extra += [gen_tree(rng, 200000 + i, chk.tier) for i in range(n_trees)]
         extra += [gen_tree(rng, 300000 + i, chk.tier, "staged") for i in range(n_staged)]
+        extra += [gen_tree(rng, 400000 + i, chk.tier, "listed") for i in range(n_listed)]
         wres2 = run_workers(extra, seeds, "X")
-        found, _ = evaluate(chk, drv, extra, wres2, seeds, count=False)
+        etrees2, eres2, extra_fail2 = prepare(extra, wres2, seeds)
+        found, _ = evaluate(chk, drv, etrees2, eres2, seeds, count=False)
+        found = extra_fail2 + found
         got = False
         for what, case in found:
             if chk.violation("C14 oracle: " + what + "\n" + case["source"] + "\n" + case.get("call", ""), case):
@@ -1322,7 +1576,9 @@ def replay(case):
     if "call" in case:
         print(case["call"])
     drv = lean.Driver()
-    wres = run_workers([T], seeds, "R")
+    wres = run_workers([T.get("full") or T], seeds, "R")
+    (T,), wres, extra_fail = prepare([T.get("full") or T], wres, seeds)     # explicit listing: evaluated as its restriction
+    cfg = T["configs"][ci]
     rc = 0
     for s in seeds:
         R = wres[s]["results"][str(T["id"])]
@@ -1341,7 +1597,7 @@ def replay(case):
                 P = C["pairs"][pi]
                 D = T["instances"][ii]["cls"]
                 mark = "" if P["out"] == f"ok:{D}:1" else "   <-- property fails" if in_property(T, cfg) else "   (outside the property)"
-                print(f"  K{K} <- #{ii} (K{D}): un={P['un']} impl={P['out']} {(P.get('detail') or {}).get('exc', '')} "
+                print(f"  {kn(T, K)} <- #{ii} ({kn(T, D)}): un={P['un']} impl={P['out']} {(P.get('detail') or {}).get('exc', '')} "
                       + (f"model={M['out'][pi]} inscope={int(M['inscope'][pi])}" if M else "") + mark)
 
     class _Chk:   # minimal stand-in: run the oracle only
@@ -1350,7 +1606,7 @@ def replay(case):
         unmodelled = 0
         samples = []
     fails, corr = evaluate(_Chk(), drv, [T], wres, seeds, count=False)
-    fails = [(w, c) for w, c in fails if c["config_index"] == ci]
+    fails = [(w, c) for w, c in extra_fail + fails if c["config_index"] == ci]
     for what, c in fails[:10]:
         known = [n for n, pred in __import__("harness.framework", fromlist=["x"]).FINDING_PREDICATES.items() if pred(c)]
         print("oracle FAILS:", what, ("(recorded finding: " + ", ".join(known) + ")") if known else "")
